@@ -161,6 +161,8 @@ struct MempoolSimOpts {
      *  below 1 MB, expiry in seconds, require_standard). Must keep max_size_bytes >= 40 * limits.cluster_size_vbytes. */
     std::function<void(CTxMemPool::Options&)> tweak_mempool{};
     std::optional<size_t> coins_cache_bytes{};
+    bool min_validation_cache{false};                //!< forwarded to ChainSimOpts: 0-byte signature / script-execution caches
+    std::optional<size_t> validation_cache_bytes{};  //!< forwarded to ChainSimOpts::validation_cache_bytes
 };
 
 /** A coin the generator may spend */
